@@ -8,6 +8,7 @@ mkdir -p "$SCR/repo" "$SCR/ev"
 (cd /repo && git ls-files -z --cached --others --exclude-standard | tar --null -T - -cf - 2>/dev/null) | tar -xf - -C "$SCR/repo"
 (cd "$SCR/repo" && patch -p1 -s --no-backup-if-mismatch < "$PATCH" >/dev/null 2>&1) || { echo "$(basename $(dirname $PATCH))/$(basename $PATCH): PATCH-DOES-NOT-APPLY"; exit 3; }
 export GOFLAGS=-mod=mod GOPROXY=off GOSUMDB=off GOTOOLCHAIN=local GOWORK=off CGO_ENABLED=0
+. /verif/tools/gocache_env.sh
 bad=""
 for p in $("$HERE/bin/verifcheck" -list); do
   out=$("$HERE/bin/verifcheck" -repo "$SCR/repo" -verif "$HERE" -prop $p -evidence "$SCR/ev/$p.json" 2>&1); rc=$?
